@@ -158,6 +158,11 @@ def run(ctx):
     ctx.require(not bad, "R-C18-2", "matrix-source", "neighbours and weights come from the de-duplicated neighbour API and the edge store (%s)" % sorted(srcs & {"get_successors_or_neighbors", "get_edge", "get_edges", "get_all_edges", "get_neighbor_nodes", "get_successor_nodes", "get_sparse_adjacency_matrix"}), "eigenvector_centrality walks the raw adjacency list at %s: that list repeats a neighbour for an undirected self-loop and holds one policy weight per pair, so the matrix entry becomes 2w (or the minimum of parallel weights) instead of the stored edge's weight" % bad[:2], loc_str(b.span))
 
     # ------------------------------------------------------------------ R-C18-3
+    # R-C18-4: the iteration walks the index-keyed adjacency maps (get_successors_or_neighbors); an entry of those maps
+    # must never be replaced by a fresh one for a node that already has edges
+    from graphrules import adjacency_entries_only_for_new_nodes
+
+    adjacency_entries_only_for_new_nodes(ctx, prog, flows, "R-C18-4", "so the power iteration runs on a matrix that lacks the edges of `%s` for that node and converges to the eigenvector of another graph")
     ctx.rule("R-C18-3", "the matrix entry of an edge is its stored weight; it is replaced by 1 only when the call is unweighted or the weight is NaN")
     n_w = 0
     for cb in [b] + prog.closures_of(b.path):
